@@ -129,7 +129,8 @@ func (p *gcpPicker) Pick(info balancer.PickInfo) (balancer.PickResult, error) {
 // by 2^(refresh count since last response) as a time.Duration. This provides
 // exponential backoff when RPCs keep deadline exceeded after consecutive reconnections.
 func (p *gcpPicker) unresponsiveWindow(scRef *subConnRef) time.Duration {
-	factor := uint32(1 << scRef.refreshCnt)
+	_, refreshCnt := scRef.respState()
+	factor := uint32(1 << refreshCnt)
 	return time.Millisecond * time.Duration(factor*p.gb.cfg.GetChannelPool().GetUnresponsiveDetectionMs())
 }
 
@@ -145,14 +146,15 @@ func (p *gcpPicker) detectUnresponsive(ctx context.Context, scRef *subConnRef, c
 		return
 	}
 
-	if callStarted.Before(scRef.lastResp) {
+	lastResp, _ := scRef.respState()
+	if callStarted.Before(lastResp) {
 		return
 	}
 
 	// Increment deadline exceeded calls and check if there were enough deadline
 	// exceeded calls and enough time passed since last response to trigger refresh.
 	if scRef.deCallsInc() >= p.gb.cfg.GetChannelPool().GetUnresponsiveCalls() &&
-		scRef.lastResp.Before(time.Now().Add(-p.unresponsiveWindow(scRef))) {
+		lastResp.Before(time.Now().Add(-p.unresponsiveWindow(scRef))) {
 		p.gb.refresh(scRef)
 	}
 }
